@@ -6,16 +6,19 @@ from vlib import SPEC, Raw, write_cfg  # noqa: E402
 
 INVS = ['Inv_X05_NoCrash', 'Inv_X05_Refused', 'Inv_X05_Files', 'Inv_X05_ExactlyOnce', 'Inv_X05_Unselected', 'Inv_X05_Head',
         'Inv_X05_Order', 'Inv_X05_Content', 'Inv_X05_RecordRG', 'Inv_X05_HeaderRG', 'Inv_X05_Closed', 'Inv_X05_Step']
+SINVS = ['Inv_X05s_Refused', 'Inv_X05s_NoCrash', 'Inv_X05s_Files', 'Inv_X05s_ExactlyOnce', 'Inv_X05s_Unselected', 'Inv_X05s_Content',
+         'Inv_X05s_Sorted', 'Inv_X05s_Header', 'Inv_X05s_Indexed', 'Inv_X05s_Closed']
 BASE = dict(SampleNames=Raw('{"a", "b", "c"}'), NoSM=True, AsgSamples=Raw('{"a", "b"}'), GroupNames=Raw('{"g", "h"}'),
             MaxRecs=3, MaxGroups=2, MaxPerGroup=2, HeadMax=2, WRGs=Raw('{TRUE, FALSE}'), Prefix='P_', StemWithBam=False,
-            Mode='api', MaxLines=0, Variant='design')
+            Mode='api', MaxLines=0, Variant='design',
+            NoCols=Raw('{FALSE}'), AddChrs=Raw('{FALSE}'), DupFlags=Raw('{FALSE}'), LowQFlags=Raw('{FALSE}'), PosMax=1, MapqReading='ignored')
 
 
 def cfg(name, gen=False, **kw):
     c = dict(BASE)
     c.update(kw)
     # negative controls are judged by the clauses of the property alone (the step invariant would always be the first to fail)
-    invs = () if gen else (INVS if c['Variant'] == 'design' else INVS[:-1])
+    invs = () if gen else SINVS if c['Mode'] == 'split' else (INVS if c['Variant'] == 'design' else INVS[:-1])
     write_cfg(os.path.join(SPEC, 'MC_SampleRouting_%s.cfg' % name), constants=c, invariants=invs,
               constraints=('Emit',) if gen else ())
 
@@ -43,3 +46,19 @@ cfg('gen_bam_q', gen=True, StemWithBam=True, MaxRecs=1, MaxPerGroup=1, HeadMax=0
 cfg('gen_cli_q', gen=True, Mode='cli', MaxLines=2, MaxRecs=2, HeadMax=1, WRGs=Raw('{TRUE}'), SampleNames=Raw('{"a", "b"}'))
 cfg('gen_api_t', gen=True, MaxRecs=3, HeadMax=2)
 cfg('gen_cli_t', gen=True, Mode='cli', MaxLines=3, MaxRecs=2, HeadMax=1, SampleNames=Raw('{"a", "b"}'))
+
+# Mode = "split": split_bam_by_cluster.py
+SPLIT = dict(Mode='split', MaxRecs=2, MaxLines=2, NoCols=Raw('{TRUE, FALSE}'), AddChrs=Raw('{TRUE}'), DupFlags=Raw('{TRUE, FALSE}'), PosMax=2)
+cfg('design_split_q', **dict(SPLIT, SampleNames=Raw('{"a", "b"}')))
+cfg('design_splitmq_q', **dict(SPLIT, MapqReading='filter', LowQFlags=Raw('{TRUE, FALSE}'), DupFlags=Raw('{FALSE}'), NoCols=Raw('{TRUE}'),
+                               AddChrs=Raw('{FALSE}'), SampleNames=Raw('{"a", "b"}')))
+cfg('design_split_t', **dict(SPLIT, MaxRecs=3, NoCols=Raw('{FALSE}')))
+cfg('design_split3_t', **dict(SPLIT, MaxLines=3, SampleNames=Raw('{"a", "b"}')))
+SNEG = dict(SPLIT, SampleNames=Raw('{"a", "b"}'), DupFlags=Raw('{FALSE}'), NoCols=Raw('{FALSE}'), PosMax=1)
+for v, kw in (('split_skip_always', dict(NoCols=Raw('{TRUE, FALSE}'))), ('split_skip_never', dict(NoCols=Raw('{TRUE, FALSE}'))),
+              ('split_dup_last_wins', {}), ('split_keep_dups', dict(DupFlags=Raw('{TRUE, FALSE}'))), ('split_no_missing_name', {}),
+              ('split_no_sort', dict(PosMax=2)), ('split_no_cleanup', {}), ('split_no_index', {}), ('split_prefix_some', {}),
+              ('split_first_cluster_all', {})):
+    cfg('%s_q' % v, Variant=v, **dict(SNEG, **kw))
+cfg('gen_split_q', gen=True, **dict(SPLIT, SampleNames=Raw('{"a", "b"}'), AddChrs=Raw('{TRUE, FALSE}')))
+cfg('gen_split_t', gen=True, **dict(SPLIT, AddChrs=Raw('{TRUE, FALSE}'), MaxLines=3, SampleNames=Raw('{"a", "b"}')))
